@@ -118,6 +118,21 @@ def _mk(prop):
                         if bad:
                             run.violation(f['qname'], 'elect-direction:%s' % member, loc,
                                           'the bail-out branch (operation already completed) still completes the receiver at %s' % S.where(min(bad)))
+                        # old value 0 means another party is delivering the result and may destroy the operation: touch nothing
+                        from ..facts import accesses
+                        for x in sorted(S.reach(lose)):
+                            ex = S.ev[x]
+                            if (ex.get('macro') or '').startswith(('UNIFEX_ASSERT', 'assert')): continue
+                            hit = None
+                            for p2, rw in accesses(ex):
+                                comps = [c for c in p2.split('.') if c]
+                                if p2.startswith(('#', '<', '&')) or comps[-1].endswith('()'): continue
+                                named = [c for c in comps if not c.endswith('()')]
+                                if len(named) >= 2: hit = p2; break
+                            if hit:
+                                run.violation(f['qname'], 'touch-after-bailout:%s' % member, S.where(x),
+                                              'on the bail-out branch of %s.fetch_add (old value 0: the result is already being delivered by another party) the operation is still used (%s): it may already be destroyed, and a further decrement elects a second completer' % (member, hit))
+                                break
         if n == 0: raise Broken('no reference-count election found in the files owned by ' + prop)
     r.__doc__ = 'every atomic fetch_sub/fetch_add whose result decides who completes: the old value is compared (==/!=) with exactly the amount removed (fetch_sub) or with 0 (bail-out fetch_add); the losing side of a last-owner election reaches no completion that the winning side lacks; every bail-out increment is followed on all continuing paths by the matching decrement (inlined supergraph)'
     from .. import core
